@@ -38,9 +38,11 @@ FACTORS = {
     "C(B, contr.helmert)": ("C(B, contr.helmert)", "python", "cat"),
     # levels nominated in an order of the caller's own (differs from the sorted order and from the declared order of frame 'absent-level')
     "C(A, levels=['z', 'x', 'y'])": ("C(A, levels=['z', 'x', 'y'])", "python", "cat"),
+    # a nominated level list that omits a value present in the data: those rows belong to no level (all-zero indicator rows)
+    "C(A, levels=['x', 'y'])": ("C(A, levels=['x', 'y'])", "python", "cat"),
 }
-CAT = {"A": "A", "B": "B", "C(A, contr.sum)": "A", "C(B, contr.helmert)": "B", "C(A, levels=['z', 'x', 'y'])": "A"}
-LEVELS = {"C(A, levels=['z', 'x', 'y'])": ["z", "x", "y"]}
+CAT = {"A": "A", "B": "B", "C(A, contr.sum)": "A", "C(B, contr.helmert)": "B", "C(A, levels=['z', 'x', 'y'])": "A", "C(A, levels=['x', 'y'])": "A"}
+LEVELS = {"C(A, levels=['z', 'x', 'y'])": ["z", "x", "y"], "C(A, levels=['x', 'y'])": ["x", "y"]}
 CONTRAST_FACTORS = ["C(A, contr.sum)", "C(B, contr.helmert)"]
 _REDUCED = {}
 
@@ -87,7 +89,9 @@ def frames():
     fint = f6.copy()
     fint["a"] = np.array([100, 100, 2, 3, 5, 7], dtype="int8")  # narrow integer dtypes: products and integer scalings leave their range
     fint["b"] = np.array([100, 2, 2, 3, -100, 120], dtype="int8")
-    return {"cross6": f6, "row1": f1, "rep4": f4, "absent-level": fabs, "shuffled-index": fshuf, "string-index": fstr, "small-ints": fint}
+    fus = f6.copy()
+    fus["A"] = pd.Series(["_x", "y", "_", "_x", "y", "_"], dtype=object)  # level names starting with (or equal to) an underscore
+    return {"cross6": f6, "row1": f1, "rep4": f4, "absent-level": fabs, "shuffled-index": fshuf, "string-index": fstr, "small-ints": fint, "underscore-levels": fus}
 
 
 def universe(tier):
@@ -98,6 +102,7 @@ def universe(tier):
     u += [("C(A, contr.sum)",), ("a", "C(A, contr.sum)"), ("B", "C(A, contr.sum)"), ("C(A, contr.sum)", "b"), ("C(B, contr.helmert)", "A"),
           ("C(A, contr.sum)", "C(B, contr.helmert)"), ("2.5", "C(A, contr.sum)", "a")]
     u += [("C(A, levels=['z', 'x', 'y'])",), ("C(A, levels=['z', 'x', 'y'])", "a"), ("B", "C(A, levels=['z', 'x', 'y'])")]
+    u += [("C(A, levels=['x', 'y'])",), ("C(A, levels=['x', 'y'])", "a")]
     u += [("2.5", "a"), ("2.5", "A"), ("a", "2.5"), ("2.5", "a", "A"), ("3", "A", "B"), ("1", "b"), ("A", "2.5", "a"), ("2.5", "3", "a")]
     return u
 
